@@ -728,4 +728,6 @@ def run(c, prog):
     rule_names(c, prog)
     rule_matcolors(c, prog)
     rule_brick(c, prog)
+    from . import C17_domain
+    C17_domain.run(c, prog, which=("tags", "matcolors"))
     c.not_decided += ["value-exact survival through serde_json / bincode / rmp-serde (third-party number formatting)", "re-encoding equality of the allValues.json fixture"]
